@@ -472,6 +472,9 @@ func init() {
 
 // C01: every upload protocol, algorithm and declared-digest variant; interleaved sessions.
 func planC01(prop string, seed uint64, tier string, idx int) *Plan {
+	if idx%5 == 4 {
+		return planSharedSession(prop, seed, tier, idx)
+	}
 	g := newGen(seed, tier)
 	g.p.Profile = "upload-protocol"
 	g.repos(g.r.between(1, 2))
